@@ -29,8 +29,8 @@ MANIFEST = {
     "text": "Theorems C06_env_reads_closed (every environment read reachable from the entry points is one the model accounts for; regenerated from "
             "the source on every run), C06_datetime_platform_unused (finite, over the shipped templates), C06_listing_order_irrelevant (the written "
             "dictionary is invariant under permutation of the code model), C06_outdir_spelling_irrelevant (what is written under each relative name "
-            "does not depend on the spelling of the output directory). Hash-order independence is tied by a source-shape obligation (sets are "
-            "sorted before iteration) and by runs under different PYTHONHASHSEED; it is not a theorem about a model of the UML back end (partial).",
+            "does not depend on the spelling of the output directory), C06_hash_order_irrelevant (sorted(<set>) is the same list for every iteration order) "
+            "with the source-shape obligation that every set reaching the output is handed out through sorted() (translator/setorder.py, fail closed).",
     "note": PRES_NOTE + " Partial: the engine itself (template expansion) is not modelled for this property; its determinism rests on the inventory "
             "closure (no unaccounted environment read) plus the differential runs.",
 }
@@ -117,6 +117,18 @@ def run(ctx):
         ctx.case(("corpus", p))
         if not replay(ctx, data):
             ctx.violation("corpus case %s fails" % os.path.basename(p), data)
+    # function-level correspondence: Python's sorted() on strings vs Proofs.SortedSet.py_sorted (UTF-8 byte order = code-point order)
+    if ctx.km:
+        alphabet = ["A", "a", "B", "b", "::", "_", "0", "9", "Z", "z", "é", "ß", "中", "\U0001F600", "", "X::Y", "X:", "x"]
+        for i in range(ctx.budget(300, 5000)):
+            l = ["".join(ctx.rng.choice(alphabet) for _ in range(ctx.rng.randint(0, 5))) for _ in range(ctx.rng.randint(0, 8))]
+            want = [x.encode("utf-8") for x in sorted(l)]
+            got = ctx.km.call("py_sorted", [x.encode("utf-8") for x in l])
+            ctx.case(("sorted", tuple(l)), nontrivial=len(set(l)) > 1)
+            if got != want:
+                ctx.tie_broken("correspondence: Python sorted() vs SortedSet.py_sorted", {"input": l, "impl": want, "model": got})
+                break
+        ctx.count("f_sorted", 1)
     per_kind = ctx.budget(2, 25)
     ncfg = 4 if ctx.quick and not ctx.broken else len(CONFIGS)
     for kind in presv.KINDS:
